@@ -39,6 +39,8 @@ type (
 
 		state   clientSocketConnectionState
 		stateMu sync.RWMutex
+		// Whether the end of the current connection was already reported (see onClose).
+		closeReported bool
 
 		_pid        atomic.Value
 		_lastOffset atomic.Value
@@ -188,6 +190,7 @@ func (s *clientSocket) registerSubEvents() {
 				return
 			}
 			s.state = clientSocketConnStateConnectPending
+			s.closeReported = false
 			s.onOpen()
 		}
 		errorFunc ManagerErrorFunc = func(err error) {
@@ -243,6 +246,7 @@ func (s *clientSocket) Connect() {
 	// If already connected, send a CONNECT packet.
 	if managerConnState == clientConnStateConnected && s.state != clientSocketConnStateConnectPending {
 		s.state = clientSocketConnStateConnectPending
+		s.closeReported = false
 		s.onOpen()
 	}
 }
@@ -404,9 +408,15 @@ func (s *clientSocket) onConnect(_ *parser.PacketHeader, decode parser.Decode) {
 		s.setPID(adapter.PrivateSessionID(v.PID))
 	}
 
-	s.setID(SocketID(v.SID))
-
+	// Packets are handled on their own goroutines. The connection might have been
+	// closed in the meantime (the disconnection is already reported then).
+	// A CONNECT packet of a closed connection must not connect the socket.
 	s.stateMu.Lock()
+	if !s.manager.connected() {
+		s.stateMu.Unlock()
+		return
+	}
+	s.setID(SocketID(v.SID))
 	s.state = clientSocketConnStateConnected
 	s.stateMu.Unlock()
 
@@ -526,6 +536,14 @@ func (s *clientSocket) onConnectError(_ *parser.PacketHeader, decode parser.Deco
 }
 
 func (s *clientSocket) onDisconnect() {
+	// Packets are handled on their own goroutines. The connection might have been
+	// closed in the meantime, and the disconnection is already reported then.
+	s.stateMu.RLock()
+	alreadyDisconnected := s.state == clientSocketConnStateDisconnected
+	s.stateMu.RUnlock()
+	if alreadyDisconnected {
+		return
+	}
 	s.debug.Log("Server disconnect", s.namespace)
 	s.destroy()
 	s.onClose(ReasonIOServerDisconnect)
@@ -914,9 +932,16 @@ func (s *clientSocket) destroy() {
 func (s *clientSocket) onClose(reason Reason) {
 	s.debug.Log("Going to close the socket. Reason", reason)
 
+	// The end of a connection can be noticed by more than one goroutine (for example,
+	// a DISCONNECT packet and the close of the transport). Report it once.
 	s.stateMu.Lock()
+	alreadyReported := s.closeReported
+	s.closeReported = true
 	s.state = clientSocketConnStateDisconnected
 	s.stateMu.Unlock()
+	if alreadyReported {
+		return
+	}
 	s.setID("")
 	s.disconnectHandlers.forEach(func(handler *ClientSocketDisconnectFunc) { (*handler)(reason) }, true)
 }
